@@ -1,10 +1,12 @@
 """C13: leaf selection follows the reference's mixed-radix rule for every key shape."""
 from .common import *
+import hashsigs
 
 RULE = ("counter hook (the real CompressedUsedLeafsIndexes::to / increment and HssPrivateKey::get_lifetime) over height tuples of length 1..8 over "
         "{2(hook),5,10,15,20,25} (quick: seeded sample; thorough: all tuples up to length 4 and a sample beyond) x counters 0, 1, each radix boundary +-1, last, "
         "last+1, random; tall lists (total height >= 64) included; oracle: independent mixed-radix computation")
-ASSUMPTIONS = ["how hash-sigs reads the 8-byte counter is taken from the property statement (mixed radix, bottom level least significant)"]
+ASSUMPTIONS = ["how hash-sigs reads the 8-byte counter is checked against the cisco hash-sigs tool shipped in the repository (tests/demo) for SHA-256/32 keys with mixed heights H5/H10: "
+               "leaf indices in its signatures and the key file it writes back, for counters at and around radix boundaries"]
 
 
 def run(ctx):
@@ -45,6 +47,27 @@ def run(ctx):
         for c in sorted(set(cs)):
             cases.append(Case("ctr H=S32 lms=%s c=%d" % (",".join(map(str, sh)), c), "ctr/L%d/%s" % (len(sh), "tall" if tot >= 64 else "le63"),
                               {"hs": hs, "c": c}))
+    if hashsigs.available():
+        tool = hashsigs.HashSigs()
+        try:
+            for ps in ([(4, 5), (3, 6)], [(3, 6), (4, 5)], [(4, 5), (4, 5), (4, 5)]):
+                seed = rng.bytes_(32)
+                name, prv, pub, _ = tool.genkey(ps, seed, 0)
+                hts = heights_of(ps)
+                for cnt in [x for x in boundary_counters(hts, rng, 1) if x + 1 < (1 << sum(hts))][: (6 if ctx.tier == "quick" else 40)]:
+                    tool.set_private_key(name, sk_blob("S32", ps, seed, cnt))
+                    ref = tool.sign(name, b"ctr")
+                    ctx.evaluations += 1
+                    ctx.classes[("hash-sigs-tool/counter", "ok")] = ctx.classes.get(("hash-sigs-tool/counter", "ok"), 0) + 1
+                    _, lv = parse_hss_sig(32, ref)
+                    if [l["q"] for l in lv] != mixed_radix(hts, cnt) or tool.private_key(name) != sk_blob("S32", ps, seed, cnt + 1):
+                        ctx.fail("the hash-sigs tool itself does not read the counter as mixed radix (oracle assumption broken)", ["counter %d heights %s" % (cnt, hts)], str([l["q"] for l in lv]), str(mixed_radix(hts, cnt)))
+                    r = ctx.both([Case(sign_line("S32", sk_blob("S32", ps, seed, cnt), b"ctr"), "sign/vs-hash-sigs-counter")], None)[0][1]
+                    _, lv2 = parse_hss_sig(32, unhx(fields(r)["sig"]))
+                    if [l["q"] for l in lv2] != [l["q"] for l in lv] or fields(r).get("cb") != tool.private_key(name).hex():
+                        ctx.fail("leaf indices / successor key differ from the hash-sigs tool for the same key file", ["counter %d heights %s" % (cnt, hts)], str([l["q"] for l in lv2]), str([l["q"] for l in lv]))
+        finally:
+            tool.close()
     for c, a, b in ctx.both(cases, None):
         hs, cnt = c.meta["hs"], c.meta["c"]
         tot = sum(hs)
